@@ -744,9 +744,6 @@ pub fn run(tier: &Tier) -> i32 {
             // ceilings: 20 s and 1.5 GB for the largest inputs; 6 s / 400 MB below 100 KB
             let big = text.len() > 100_000;
             let o = cli_verdict(rep, c, &format!("source file / {}", name.split(" x ").next().unwrap_or(name)), name, text.as_bytes(), "", *interp, if big { 30_000 } else { 10_000 }, if big { 1_500_000 } else { 400_000 });
-            if o.wall_ms > 1500 {
-                eprintln!("SLOW {} ms {} interp={} timeout={}", o.wall_ms, name, interp, o.timed_out);
-            }
             if !*interp && !o.timed_out {
                 cli_timings.lock().unwrap().push((format!("family: {}", name), text.len(), o.cpu_ms));
             }
